@@ -4,6 +4,7 @@ import (
 	"bytes"
 	"fmt"
 	"mime/multipart"
+	"net/textproto"
 	"net/url"
 	"strings"
 
@@ -91,7 +92,7 @@ func genOp(r *simfw.RNG, m string) Op {
 	switch r.Intn(18) {
 	case 0, 1:
 		return Op{Kind: "find", Router: rt, Method: simfw.Pick(r, []string{"GET", "PUT", "POST", "DELETE"}),
-			Path: simfw.Pick(r, []string{ver + "/pets/7", ver + "/pets/abc", ver + "/form", "/v3/pets/1", "/nope/" + m, ver + "/text", ver + "/upload"})}
+			Path: simfw.Pick(r, []string{ver + "/pets/7", ver + "/pets/abc", ver + "/pets/mine", ver + "/form", "/v3/pets/1", "/nope/" + m, ver + "/text", ver + "/upload"})}
 	case 2, 3, 4:
 		q := url.Values{}
 		for i, k := 0, r.Range(0, 3); i < k; i++ {
@@ -100,7 +101,7 @@ func genOp(r *simfw.RNG, m string) Op {
 		if r.Bool() {
 			q.Set("limit", simfw.Pick(r, []string{"5", "100", "1000", "x"}))
 		}
-		o := Op{Kind: "vreq", Router: rt, Method: "GET", Path: ver + "/pets/" + simfw.Pick(r, []string{"1", "42", "0", "abc"}), Query: q.Encode(), Multi: r.Chance(1, 3), SkipDefaults: r.Chance(1, 4)}
+		o := Op{Kind: "vreq", Router: rt, Method: "GET", Path: ver + "/pets/" + simfw.Pick(r, []string{"1", "42", "0", "abc", "mine"}), Query: q.Encode(), Multi: r.Chance(1, 3), SkipDefaults: r.Chance(1, 4)}
 		if r.Bool() {
 			o.Headers = append(o.Headers, [2]string{"X-Trace", simfw.Pick(r, []string{"2021-03-04", "2021-13-40"})})
 		}
@@ -164,6 +165,20 @@ func genOp(r *simfw.RNG, m string) Op {
 			if r.Bool() {
 				w.WriteField("note", simfw.Pick(r, []string{"see " + m + "m", "none"}))
 			}
+			if r.Chance(1, 2) {
+				// a part that is a multipart body itself: the decoder is entered again from inside itself
+				var inner bytes.Buffer
+				iw := multipart.NewWriter(&inner)
+				iw.SetBoundary("concinner")
+				iw.WriteField("k", simfw.Pick(r, []string{"v", "", "w" + m}))
+				iw.Close()
+				h := textproto.MIMEHeader{}
+				h.Set("Content-Disposition", `form-data; name="extra"`)
+				h.Set("Content-Type", "multipart/form-data; boundary=concinner")
+				if pw, err := w.CreatePart(h); err == nil {
+					pw.Write(inner.Bytes())
+				}
+			}
 			w.Close()
 			return Op{Kind: "vreq", Router: rt, Method: "POST", Path: ver + "/upload", CT: w.FormDataContentType(), Body: buf.String()}
 		}
@@ -187,7 +202,8 @@ func genOp(r *simfw.RNG, m string) Op {
 		return o
 	case 13:
 		schema := simfw.Pick(r, []string{"Pet", "Pet", "Dog", "Cat", "Err"})
-		val := simfw.Pick(r, []string{petBody(r, m, true), petBody(r, m, false), `{"species":"dog","tricks":["a` + m + `d","b"]}`, `{"species":"cat","lives":"many"}`, `{"error":"x"}`, `[1,2]`, `null`})
+		val := simfw.Pick(r, []string{petBody(r, m, true), petBody(r, m, false), `{"species":"dog","tricks":["a` + m + `d","b"]}`, `{"species":"cat","lives":"many"}`, `{"error":"x"}`, `[1,2]`, `null`,
+			`{"id":"NaN!","name":"Rex"}`, `{"species":"dog","tricks":["sit","Inf!"]}`, `{"species":"cat","lives":"NaN!"}`}) // (NaN!/Inf!: replaced by the float after decoding; JSON cannot say them, a Go caller can)
 		kind := "visit"
 		if r.Chance(1, 4) {
 			kind = "match"
@@ -225,12 +241,23 @@ func Gen(seed uint64, tier string) *Spec {
 	r := simfw.NewRNG(seed)
 	s := &Spec{Marker: fmt.Sprintf("m%010x", seed&0xffffffffff)}
 	ng := r.Range(2, 6)
+	crowd := r.Chance(1, 10)
+	var herd Op
+	if crowd {
+		// many callers doing the same thing at the same time
+		ng = r.Range(8, 12)
+		herd = genOp(r, s.Marker)
+	}
 	total := 0
 	for g := 0; g < ng; g++ {
 		n := r.Range(1, 4)
 		var ops []Op
 		for i := 0; i < n; i++ {
 			ops = append(ops, genOp(r, s.Marker))
+		}
+		if crowd {
+			ops = []Op{herd}
+			n = 1
 		}
 		// callers that hit the same cold state together are the interesting ones: sometimes duplicate an op across callers
 		if g > 0 && r.Chance(1, 3) {
